@@ -71,6 +71,9 @@ func init() {
 		"(encoding/binary.littleEndian).Uint64":    specLEGet(8),
 		"strings.HasPrefix": specBytesHasPrefix,
 		"errors.Join":       specErrorsJoin,
+		"slices.SortFunc":   specSlicesSortFunc,
+		"strings.Compare":   specBytesCompare,
+		"cmp.Compare":       specCmpCompare,
 		"slices.Delete":     specSlicesDelete,
 		"(*sync/atomic.Bool).Load":           specAtomicBool("Load"),
 		"(*sync/atomic.Bool).Store":          specAtomicBool("Store"),
@@ -675,4 +678,44 @@ func specErrorsJoin(env *Env, recv *Val, args []Val, st *State, call *ast.CallEx
 	st.assume(fmt.Sprintf("(>= %s 0)", r))
 	st.assume(eq(eq(r, "0"), and(allNil...)))
 	return Val{T: r, Ty: types.Universe.Lookup("error").Type()}
+}
+
+// slices.SortFunc(s, cmp) sorts in place: the result is ordered by cmp and holds the same elements.
+func specSlicesSortFunc(env *Env, recv *Val, args []Val, st *State, call *ast.CallExpr) Val {
+	c := env.c
+	sl, cmpf := args[0], args[1]
+	s := env.sortOf(sl.Ty)
+	env.rangeAssume(st, sl)
+	es := env.sortOf(elemOf(sl.Ty))
+	arr := c.fresh("sorted", fmt.Sprintf("(Array Int %s)", es))
+	ln := app("len_"+s, sl.T)
+	i, j := c.freshBound("i"), c.freshBound("j")
+	sub := *env
+	sub.noSafety = true
+	sub.qvars = append(append([]string(nil), env.qvars...), fmt.Sprintf("(%s Int)", i), fmt.Sprintf("(%s Int)", j))
+	sub.qnames = append(append([]string(nil), env.qnames...), i, j)
+	et := elemOf(sl.Ty)
+	scratch := st.clone()
+	r := sub.applyFuncValue(cmpf, []Val{{T: app("select", arr, i), Ty: et}, {T: app("select", arr, j), Ty: et}}, scratch, call)
+	st.assume(fmt.Sprintf("(forall ((%s Int) (%s Int)) (=> (and (<= 0 %s) (< %s %s) (< %s %s)) (<= %s 0)))", i, j, i, i, j, j, ln, r.T))
+	// same elements (both directions, skolemised)
+	f1, f2 := c.fresh("perm", "(Array Int Int)"), c.fresh("perminv", "(Array Int Int)")
+	st.assume(fmt.Sprintf("(forall ((%s Int)) (! (=> (and (<= 0 %s) (< %s %s)) (and (<= 0 (select %s %s)) (< (select %s %s) %s) (= (select %s %s) (select (arr_%s %s) (select %s %s))) (= (select %s (select %s %s)) %s))) :pattern ((select %s %s))))",
+		i, i, i, ln, f1, i, f1, i, ln, arr, i, s, sl.T, f1, i, f2, f1, i, i, arr, i))
+	st.assume(fmt.Sprintf("(forall ((%s Int)) (! (=> (and (<= 0 %s) (< %s %s)) (and (<= 0 (select %s %s)) (< (select %s %s) %s) (= (select %s (select %s %s)) (select (arr_%s %s) %s)))) :pattern ((select (arr_%s %s) %s))))",
+		i, i, i, ln, f2, i, f2, i, ln, arr, f2, i, s, sl.T, i, s, sl.T, i))
+	c.trust("slices.SortFunc: in-place sort; result ordered by the comparison function and a permutation of the input")
+	nv := Val{T: app("mk_"+s, arr, ln), Ty: sl.Ty}
+	if !env.contract && len(call.Args) > 0 {
+		c.assignSliceTarget(env, call.Args[0], nv, st)
+	}
+	return Val{}
+}
+
+func specCmpCompare(env *Env, recv *Val, args []Val, st *State, call *ast.CallExpr) Val {
+	a, b := args[0], args[1]
+	if env.sortOf(a.Ty) == "Str" {
+		return specBytesCompare(env, recv, args, st, call)
+	}
+	return intVal(ite(app("<", a.T, b.T), "(- 1)", ite(app(">", a.T, b.T), "1", "0")))
 }
